@@ -177,21 +177,44 @@ def run_unit(unit: str, dst: str, root: str):
     open(os.path.join(keep, f"verus_{unit}.rs"), "w").write(text)
     t0 = time.time()
     cmd = ["verus", path, "--output-json", "--time", "--multiple-errors", "20", "--rlimit", "60"]
-    try:
-        p = subprocess.run(cmd, stdout=subprocess.PIPE, stderr=subprocess.PIPE, text=True, timeout=1500)
-    except subprocess.TimeoutExpired:
-        raise Undecided(f"verus timed out on unit {unit}")
+    out_of_reach = []          # functions Verus rejected (construct outside its subset): isolated, reported undecided
+    for attempt in range(8):
+        try:
+            p = subprocess.run(cmd, stdout=subprocess.PIPE, stderr=subprocess.PIPE, text=True, timeout=1500)
+        except subprocess.TimeoutExpired:
+            raise Undecided(f"verus timed out on unit {unit}")
+        open(os.path.join(keep, f"verus_{unit}.out"), "w").write(p.stdout + "\n=====\n" + p.stderr)
+        try:
+            js = json.loads(p.stdout[p.stdout.index("{"):])
+        except Exception:
+            raise Undecided(f"verus produced no JSON for unit {unit}:\n{p.stderr[-3000:]}")
+        vr = js.get("verification-results", {})
+        rejected = vr.get("encountered-vir-error") or (not vr.get("success") and vr.get("verified", 0) == 0 and vr.get("errors", 0) == 0)
+        if not rejected:
+            break
+        # rustc / VIR level error.  If it sits inside ONE extracted function, that function alone is put out of reach
+        # (external_body keeps its contract for its callers) and the rest of the unit is still verified.
+        locs = [int(x) for x in re.findall(r"-->\s*\S+?:(\d+):\d+", p.stderr)]
+        spans0 = [sp for sp in fn_spans(text) if sp["kind"] == "exec"]
+        hit = None
+        for l in locs:
+            for sp in spans0:
+                if sp["start"] <= l <= sp["end"] and sp["name"] not in out_of_reach:
+                    hit = sp
+                    break
+            if hit:
+                break
+        if hit is None or attempt == 7:
+            raise Undecided(f"unit {unit}: Verus rejected the extracted text (construct outside its subset / lost anchor):\n"
+                            + "\n".join(l for l in p.stderr.split("\n") if l.strip())[:3500])
+        out_of_reach.append(hit["name"])
+        lines = text.split("\n")
+        lines.insert(hit["start"] - 1, "#[verifier::external_body] // put out of reach by the runner: " +
+                     re.sub(r"\s+", " ", next((ln for ln in p.stderr.split("\n") if ln.startswith("error")), "rejected"))[:160])
+        text = "\n".join(lines)
+        open(path, "w").write(text)
+        open(os.path.join(keep, f"verus_{unit}.rs"), "w").write(text)
     wall = time.time() - t0
-    open(os.path.join(keep, f"verus_{unit}.out"), "w").write(p.stdout + "\n=====\n" + p.stderr)
-    try:
-        js = json.loads(p.stdout[p.stdout.index("{"):])
-    except Exception:
-        raise Undecided(f"verus produced no JSON for unit {unit}:\n{p.stderr[-3000:]}")
-    vr = js.get("verification-results", {})
-    if vr.get("encountered-vir-error") or (not vr.get("success") and vr.get("verified", 0) == 0 and vr.get("errors", 0) == 0):
-        # rustc / VIR level error: construct outside Verus' subset or extraction problem: undecided
-        raise Undecided(f"unit {unit}: Verus rejected the extracted text (construct outside its subset / lost anchor):\n"
-                        + "\n".join(l for l in p.stderr.split("\n") if l.strip())[:3500])
     spans = fn_spans(text)
     errors = []
     # human readable diagnostics on stderr: blocks starting with "error"
@@ -206,7 +229,7 @@ def run_unit(unit: str, dst: str, root: str):
         blk_main = blk.split("\nnote:")[0]
         locs = [int(x) for x in re.findall(r"-->\s*\S+?:(\d+):\d+", blk_main)][:1]
         errors.append({"head": head, "lines": locs, "text": blk_main[:1500]})
-    res = {"unit": unit, "wall": wall, "verified": vr.get("verified", 0), "errors_n": vr.get("errors", 0),
+    res = {"unit": unit, "wall": wall, "verified": vr.get("verified", 0), "errors_n": vr.get("errors", 0), "out_of_reach": out_of_reach,
            "fns": [], "rewrites": ex.rewrites, "functions": ex.functions, "path": path, "raw_err": p.stderr[-4000:],
            "smt_ms": js.get("times-ms", {}).get("smt", {}).get("total") if isinstance(js.get("times-ms", {}).get("smt"), dict) else None,
            "times": js.get("times-ms", {})}
@@ -259,6 +282,10 @@ def run_for_property(pid, tier, seed, dst, root, rep, findings):
                                                         "errors": r["errors_n"], "times_ms": r["times"],
                                                         "rewrites": sorted(set(r["rewrites"]))[:60]})
         ntotal = 0
+        for name in r.get("out_of_reach", []):
+            if pid in fn_props(unit, name):
+                rep.undecided.append(f"verus {unit}::{name}: construct outside Verus' subset (function isolated; the rest of the unit was verified)")
+                ntotal += 1
         for f in r["fns"]:
             fprops = fn_props(unit, f["name"])
             if pid not in fprops:
